@@ -198,6 +198,8 @@ impl VersionManager {
                 .open(&temp_manifest_path)
                 .await?;
         }
+        #[cfg(feature = "verif")]
+        crate::verif::crash_point("rewrite.tmp_created", &temp_manifest_path, None);
         // Write to tempfile
         let epoch = {
             let mut temp_manifest = Manifest::open(&temp_manifest_path, true).await?;
@@ -206,7 +208,11 @@ impl VersionManager {
         };
         // Rename this tempfile to manifest
         let manifest_path = manifest_dir_path.join(MANIFEST_FILE_NAME);
+        #[cfg(feature = "verif")]
+        crate::verif::crash_point("rewrite.before_rename", &temp_manifest_path, None);
         tokio::fs::rename(&temp_manifest_path, &manifest_path).await?;
+        #[cfg(feature = "verif")]
+        crate::verif::crash_point("rewrite.renamed", &manifest_path, None);
         manifest.reopen(&manifest_path).await?;
         Ok(epoch)
     }
@@ -383,7 +389,13 @@ impl VersionManager {
                 .join(format!("{}_{}", table_id, rowset_id));
             info!("vacuum {}_{}", table_id, rowset_id);
             if !self.storage_options.disable_all_disk_operation {
+                #[cfg(feature = "verif")]
+                crate::verif::crash_point("vacuum.before_unlink", &path, None);
+                #[cfg(feature = "verif")]
+                let verif_path = path.clone();
                 tokio::fs::remove_dir_all(path).await?;
+                #[cfg(feature = "verif")]
+                crate::verif::crash_point("vacuum.unlinked", &verif_path, None);
             }
         }
 
